@@ -486,6 +486,8 @@ func runC09(c *Ctx) {
 
 	c.rule("C09.O3", "a rescan that (re)subscribes misses no reorganisation: "+backlogDoc, func() { c.backlogThenRegister() })
 
+	c.rule("C09.V5", "each disconnect lets the rescan step back by exactly one block: handleBlockDisconnected takes the notification's ChainTip as its new position, so the event for a removed block must carry that block's own parent: "+disconnectPayloadDoc, func() { c.disconnectPayload() })
+
 	c.rule("C09.V4", "every block from the start time on is searched: the switch rescanState.scanning is only ever set from startTime.Before(T) with T the timestamp of the block that is about to be delivered: in handleBlockConnected the header of the notification itself (not rs.curHeader, which is still its parent there), in rescan's catch-up loop rs.curHeader after it has been moved to the fetched header in that iteration; whoever writes the switch is tabled", func() {
 		scanning := rsF("scanning")
 		before := c.method("time", "Time", "Before")
